@@ -220,7 +220,7 @@ func runCacheRound(rd *cacheRound) (cacheAPI, cacheRoundOut) {
 	if rd.janitor {
 		// the janitor goroutine creates its ticker asynchronously
 		for i := 0; i < 1<<20 && tk == nil; i++ {
-			if tks := vshim.Tickers(); len(tks) > 0 {
+			if tks := armedSources(); len(tks) > 0 {
 				tk = tks[len(tks)-1]
 			} else {
 				runtime.Gosched()
@@ -281,7 +281,7 @@ func runCacheRound(rd *cacheRound) (cacheAPI, cacheRoundOut) {
 				defer fwg.Done()
 				<-start
 				for atomic.LoadInt32(&stop) == 0 {
-					if tk.Fire() {
+					if janFireNoWait() > 0 {
 						atomic.AddInt64(&out.janTicks, 1)
 					}
 					runtime.Gosched()
@@ -295,9 +295,7 @@ func runCacheRound(rd *cacheRound) (cacheAPI, cacheRoundOut) {
 		if rd.janitor && tk != nil {
 			// two further ticks: when the second one is accepted the pass triggered
 			// by everything before has finished
-			tk.FireWait(1 << 20)
-			tk.FireWait(1 << 20)
-			tk.FireWait(1 << 20)
+			janTickFlush(1 << 20)
 		}
 		vshim.SetMode(0)
 		for _, hs := range hists {
@@ -647,7 +645,7 @@ func closedScenario(r rng, res *result, idx int64) {
 	var tk *vshim.FakeTicker
 	if janitor {
 		for i := 0; i < 1<<20 && tk == nil; i++ {
-			if tks := vshim.Tickers(); len(tks) > 0 {
+			if tks := armedSources(); len(tks) > 0 {
 				tk = tks[len(tks)-1]
 			} else {
 				runtime.Gosched()
@@ -716,13 +714,11 @@ func closedScenario(r rng, res *result, idx int64) {
 	}
 	close(start)
 	if tk != nil {
-		tk.Fire()
+		janFireNoWait()
 	}
 	wg.Wait()
 	if tk != nil {
-		tk.FireWait(1 << 20)
-		tk.FireWait(1 << 20)
-		tk.FireWait(1 << 20)
+		janTickFlush(1 << 20)
 	}
 	vshim.SetMode(0)
 	runtime.GOMAXPROCS(old)
